@@ -120,13 +120,25 @@ def one_history(ctx, src):
                 # a call the library refuses (shapes differ / a label that no group covers), made with per-call options
                 pr = np.ones((3, 4), np.uint8)
                 rf = np.ones((3, 5), np.uint8) if not groups or rng.random() < 0.5 else np.full((3, 4), 9, np.uint8)
+                if cfg["input"] == "SEMANTIC" and step % 2 == 0:
+                    # signed maps carrying an "ignore" value of -1: refused (negative labels are not allowed) — and left as they are
+                    dt = (np.int8, np.int16, np.int32, np.int64)[step % 4]
+                    pr = np.array([[0, 1, 1, -1], [0, 1, 0, -1], [2, 2, 0, 0]], dt)
+                    rf = np.array([[0, 1, 1, 0], [-1, 1, 0, 0], [2, 2, -1, 0]], dt)
+                    if groups:
+                        pr, rf = np.where(pr > 3, 3, pr).astype(dt), np.where(rf > 3, 3, rf).astype(dt)
+                    ctx.count("rejected_call.negative_values")
                 opts = {"save_group_times": rng.choice([True, False]), "log_times": rng.choice([None, True]), "verbose": rng.choice([None, False])}
+                pb, rb = pr.tobytes(), rf.tobytes()
                 try:
                     with quiet():
                         evs[e].evaluate(pr, rf, **opts)
                     ctx.count("rejected_call_was_accepted")
                 except Exception:
                     ctx.count("rejected_call")
+                if pr.tobytes() != pb or rf.tobytes() != rb:
+                    inp = {"specs": [[c, g, m, s] for c, g, m, s in specs], "ops": log + [["rejected-evaluate", e, pr.tolist(), rf.tolist(), str(pr.dtype)]], "src": src}
+                    ctx.violation("evaluate modified the caller's arrays (a call with values the library does not accept)", inp, key={"kind": "mutates-input"})
                 used_after.add(e)
                 log.append(["rejected-evaluate", e, list(rf.shape), int(rf.max()), opts])
                 mops.append(["keys", e])
